@@ -420,6 +420,10 @@ func C06(p *engine.Prog, r *engine.Report) {
 	r.Floor("C06-R6", 1, "processTxs")
 	// ---------------- R7: a chain restarted from a predefined state keeps (nonce, epoch) of every account
 	predefinedImportRule(p, r, "C06-R7", map[string]bool{"ProtoPredefinedState_Account": true})
+	// ---------------- R8: the signature is what ties nonce and epoch to the account; the writes of both are unconditional
+	c05R6(p, r, "C06-R8")
+	unconditionalSetterRule(p, r, "C06-R8", "SetNonce", "stateAccount", "setNonce", "Nonce")
+	unconditionalSetterRule(p, r, "C06-R8", "SetEpoch", "stateAccount", "setEpoch", "Epoch")
 	r.Floor("C06-R7", 4, "Address, Balance, Nonce, Epoch, ContractData")
 }
 
